@@ -27,7 +27,16 @@ UNITS["C02"] = [
          assumptions=["contract of rangemap::RangeInclusiveSet::gaps / Iterator::count (lib/rangeset.vrs), validated by depcheck (bounded)"]),
 ]
 
+UNITS["C12"] = [
+    dict(kind="verus", name="c12_client", template="specs/c12_client.vrs",
+         under_contract=["SubscriptionStream::handle_change", "SubscriptionStream::handle_eoq", "ChangeId::add"],
+         drivers=["accept_all"],
+         vacuity=["handle_eoq", "handle_change", "accept_all"],
+         assumptions=["change ids < u64::MAX (they are SQLite INTEGER values); only the client-library clause of C12 is decided — server-side catch-up races are concurrent async code and are NOT decided"]),
+]
+
 NOTES = {
+    "C12": "client clause only: SubscriptionStream accepts an event iff its id is last+1 and reports MissedChange otherwise",
     "C02": "bookkeeping algebra of one actor: PartialVersion completeness; gap computation; contains predicates",
     "C08": "per-call tiling contract of the real ChunkedChanges::next + verified driver for the whole-run statement; chunk_range: see kani unit",
 }
